@@ -328,6 +328,19 @@ impl<'a> VisitMut for Rw<'a> {
             if let Expr::MethodCall(m) = &*e {
                 let name = m.method.to_string();
                 if m.args.len() == 1 && ["starts_with", "ends_with", "strip_prefix", "strip_suffix", "trim_start_matches", "trim_end_matches", "contains"].contains(&name.as_str()) {
+                    // `.contains(['a', 'b'])`: an array of char literals as the pattern
+                    if name == "contains" {
+                        if let Expr::Array(arr) = &m.args[0] {
+                            if !arr.elems.is_empty() && arr.elems.iter().all(|x| matches!(x, Expr::Lit(ExprLit { lit: Lit::Char(_), .. }))) {
+                                let key = norm(&m.to_token_stream());
+                                if !self.maps.exprmap.iter().any(|(k, _)| *k == key) {
+                                    let recv = &m.receiver;
+                                    let a = &m.args[0];
+                                    chr_repl = Some(parse_quote!(vx_str_contains_any_char(#recv, &#a)));
+                                }
+                            }
+                        }
+                    }
                     if let Expr::Lit(ExprLit { lit: Lit::Char(_), .. }) = &m.args[0] {
                         let key = norm(&m.to_token_stream());
                         if !self.maps.exprmap.iter().any(|(k, _)| *k == key) {
